@@ -507,8 +507,8 @@ def run(ck, facts):
                 key = "%s/zip#%d" % (C.norm_path(f["path"]).split("::", 1)[1], sum(1 for i in ck.instances if i["rule"] == "R5" and i["key"].startswith(C.norm_path(f["path"]).split("::", 1)[1] + "/zip")))
                 ck.expect(not badm, "R5", key, "zip(%s)" % both, "one side of the use-site/def-site pairing passes through %s before the zip: positions shift (e.g. a `'static` argument in an earlier slot "
                           "pairs every later lifetime with the wrong definition-site lifetime)" % badm, C.loc(f, n.get("ln")))
-    if nz < 2:
-        ck.bad("R5", "zip-floor", "only %d zip pairings found in diplomat_core::hir (2 counted: lifetimes_def_only, lifetimes_all)" % nz)
+    if nz < 1:     # two on the pinned tree (lifetimes_def_only, lifetimes_all); one when lifetimes_all is built on lifetimes_def_only
+        ck.bad("R5", "zip-floor", "no zip pairing of use-site and def-site lifetimes found in diplomat_core::hir (2 counted: lifetimes_def_only, lifetimes_all)")
     nb = tool.fn("nanobind::ty::TyGenContext::gen_method_info")
     sup = None
     for iff in [x for g_ in C.fns_inl(tool, nb, 2) for x in C.walk(C.fn_body(g_))]:
